@@ -4,7 +4,7 @@ sys.path.insert(0, os.path.join(os.path.dirname(os.path.abspath(__file__)), ".."
 import vlib
 
 GUARDS = ["G_SafeNodeLex", "G_SafeNodeStrict", "G_SafeNodeJustify", "G_SafeNodeNeedsHQ", "G_LockOnPrecommit", "G_Quorum",
-          "G_QCViewBound", "G_KeepLocks", "G_HighQCPhase", "G_CommitPhase", "G_ProposerBound", "G_VoteRootHeight"]
+          "G_QCViewBound", "G_KeepLocks", "G_HighQCPhase", "G_CommitPhase", "G_ProposerBound", "G_VoteRootHeight", "G_AdoptLex"]
 
 NAMES = ["n1", "n2", "n3", "b1"]
 
